@@ -623,7 +623,11 @@ func runParent(ck *Check, tier string, seed uint64, only string) int {
 	}
 	if ck.Serial != nil && only == "" {
 		c := newCtx(ck, tier, seed, 0, 1)
-		ck.Serial(c)
+		// the serial step runs library code in this process: a panic there is a finding like any other, not the end
+		// of the run
+		if pv, stack := Guard(func() { ck.Serial(c) }); pv != nil {
+			c.Violate("serial-step:"+PanicSig(pv, stack), fmt.Sprintf("panic in the check's serial step: %v", pv), "serial", map[string]interface{}{"stack": stack})
+		}
 		r := c.finish()
 		merged.Evaluations += r.Evaluations
 		merged.ExactDistinct += r.ExactDistinct
